@@ -71,3 +71,22 @@ def opt_int(ctx, name, lo=None):
     if lo is not None:
         ctx.assume(v.t >= lo)
     return v
+
+
+# ---- frame clauses: "the caller's arguments are read only" ------------------------------------------------------------------
+def frame_snapshot(s, names):
+    """Entry signature of the named setup values (use as / inside Contract(snapshot=...)): arrays by write counter + content
+    function, objects by the identity of their field values, lists / dicts by length + element identity.  Together with
+    `frame_clauses` this turns "the function does not write into what it was given" into ordinary postconditions, so an edit
+    that starts mutating an argument in place (x.add_(..), x[m] = .., d.update(..), lst.append(..)) fails a named obligation."""
+    from pyvc.interp import _value_signature
+
+    return {k: _value_signature(getattr(s, k)) for k in names if getattr(s, k, None) is not None}
+
+
+def frame_clauses(s, snap, label=None):
+    """[(label, bool)] - one clause per snapshotted value: its signature at exit equals the one at entry."""
+    from pyvc.interp import _value_signature
+
+    label = label or {}
+    return [(f"frame:the-caller's-{label.get(k, k)}-is-not-written", _value_signature(getattr(s, k)) == sig) for k, sig in snap.items()]
